@@ -137,7 +137,7 @@ func runPlan(p *Plan) (res Result) {
 }
 
 func runOnce(p *Plan, env *netEnv, res *Result) (retry bool) {
-	dir, err := os.MkdirTemp("", "c18-run-")
+	dir, err := os.MkdirTemp(workDir(), "c18-run-") // removed with $VERIF_WORK even if the process dies
 	if err != nil {
 		res.LoadErr = "harness: " + err.Error()
 		return false
@@ -499,10 +499,11 @@ func (s *syncBuffer) String() string {
 }
 
 var (
-	serverMu   sync.Mutex
-	server     *planServer
-	lastPlan   *Plan
-	oneShotEnv = os.Getenv("VERIF_C18_ONESHOT") != ""
+	serverMu         sync.Mutex
+	server           *planServer
+	lastPlan         *Plan
+	lastCrashJournal string
+	oneShotEnv       = os.Getenv("VERIF_C18_ONESHOT") != ""
 )
 
 func startPlanServer() (*planServer, error) {
@@ -601,7 +602,13 @@ func runChild(p *Plan) (*childOutcome, error) {
 	for range 2 {
 		o, err := runOneShot(journal)
 		if err == nil && o.Crashed {
-			return o, nil // journal stays: it is the replay file
+			// journal stays: it is the replay file. Only the latest one is kept, so that after
+			// shrinking the remaining journal is the one of the minimal failing case.
+			if lastCrashJournal != "" && lastCrashJournal != journal {
+				os.Remove(lastCrashJournal)
+			}
+			lastCrashJournal = journal
+			return o, nil
 		}
 	}
 	if prev != nil {
@@ -677,6 +684,11 @@ func TestReplayPlan(t *testing.T) {
 	fmt.Printf("\nC18RESULT %s\n", out)
 	if os.Getenv("C18_CHILD") != "" {
 		return // the parent evaluates
+	}
+	if r.LoadErr != "" && !strings.HasPrefix(r.LoadErr, "harness:") {
+		// stand-alone replay: being refused at load is one of the two outcomes the property allows
+		t.Logf("the configuration of this plan is refused at load: %s", r.LoadErr)
+		return
 	}
 	_, tolerate := known(sigReject)
 	if v, _, _ := evaluate(&p, &r, tolerate); v != "" {
